@@ -37,3 +37,4 @@ import NetflowModel.Props.C07c
 import NetflowModel.Props.C13b
 import NetflowModel.Props.C01c
 import NetflowModel.Props.C16c
+import NetflowModel.Props.SerdeGen
